@@ -9,7 +9,7 @@ shutil.copy(f"{src}/patch.diff", f"{dst}/patch.diff")
 for f in glob.glob(f"{src}/*_test.go") + glob.glob(f"{src}/*.go"):
     shutil.copy(f, f"{dst}/" + os.path.basename(f) + ".txt")   # .txt: nothing compiles it here
 m = json.load(open(f"{src}/meta.json"))
-confirm = open(f"{src}/confirm.log").read() if os.path.exists(f"{src}/confirm.log") else ""
+confirm = open(f"{src}/confirm.log", errors="replace").read() if os.path.exists(f"{src}/confirm.log") else ""
 meta = {
   "property": ID,
   "breaks": m.get("what_it_breaks"),
